@@ -588,6 +588,92 @@ fn factorial(k: usize) -> u64 {
     (1..=k as u64).product()
 }
 
+/// The file loader's own use of the decode queue: `Buffer::from_bytes` on an .ans file feeds the sixel sequences, then
+/// waits (polling every 50 ms) until every decode has been handed over and turns the images into layers. The decodes
+/// are held in the gate and released one at a time `hold_ms` apart by a helper thread, in a chosen order, so that
+/// "regardless of how long each background decode takes" becomes observable: the loaded picture must contain exactly
+/// the images of the sequential model, however long the loader had to wait.
+#[derive(Clone, Debug, Serialize, Deserialize)]
+pub struct LoaderCase {
+    pub class: String,
+    pub images: Vec<Img>,
+    pub order: Vec<usize>,
+    pub hold_ms: u64,
+}
+
+fn run_loader(case: &LoaderCase) -> Vec<(String, Value)> {
+    let k = case.images.len();
+    let gate: Gate = Arc::new((Mutex::new(GateState { released: HashMap::new(), entered: HashMap::new() }), Condvar::new()));
+    let payloads: Vec<String> = case.images.iter().enumerate().map(|(i, img)| payload_for(i, img)).collect();
+    {
+        let g = gate.clone();
+        icy_engine::verif::set_sixel_gate(Some(Arc::new(move |_pos, data| {
+            let (m, cv) = &*g;
+            let mut st = m.lock().unwrap();
+            st.entered.insert(data.to_string(), true);
+            cv.notify_all();
+            let deadline = Instant::now() + Duration::from_secs(60);
+            while !st.released.get(data).copied().unwrap_or(false) {
+                let (s2, to) = cv.wait_timeout(st, Duration::from_millis(100)).unwrap();
+                st = s2;
+                if to.timed_out() && Instant::now() > deadline {
+                    break;
+                }
+            }
+        })));
+    }
+    let mut file: Vec<u8> = Vec::new();
+    for (i, img) in case.images.iter().enumerate() {
+        file.extend_from_slice(format!("\x1b[{};{}H\x1bPq{}\x1b\\", img.y + 1, img.x + 1, payloads[i]).as_bytes());
+    }
+    file.extend_from_slice(b"\x1b[20;1Hend");
+    let mut bad = Vec::new();
+    let loaded = std::thread::scope(|s| {
+        let g = gate.clone();
+        let (order, hold, pl) = (case.order.clone(), case.hold_ms, payloads.clone());
+        s.spawn(move || {
+            for i in order {
+                std::thread::sleep(Duration::from_millis(hold));
+                let (m, cv) = &*g;
+                m.lock().unwrap().released.insert(pl[i].clone(), true);
+                cv.notify_all();
+            }
+        });
+        Buffer::from_bytes(std::path::Path::new("loader.ans"), false, &file)
+    });
+    icy_engine::verif::set_sixel_gate(None);
+    crate::stream::install_accounting_gate();
+    let buf = match loaded {
+        Ok(b) => b,
+        Err(e) => {
+            if !case.images.iter().any(|i| i.fails) {
+                bad.push(("loader-error".into(), json!({"error": e.to_string()})));
+            }
+            return bad;
+        }
+    };
+    if !buf.sixel_threads.is_empty() {
+        bad.push(("loader-leaves-decodes-in-the-queue".into(), json!({"queued": buf.sixel_threads.len()})));
+    }
+    // the images the loaded picture holds (image layers; a loader that left some on layer 0 is counted too)
+    let mut got: Vec<i64> = Vec::new();
+    for l in buf.layers.iter() {
+        for sx in l.sixels.iter() {
+            let red = sx.picture_data.chunks(4).find(|p| p[3] != 0).map(|p| p[0]).unwrap_or(0) as i32;
+            let pos = l.get_offset() + sx.position;
+            let id = case.images.iter().enumerate().find(|(i, img)| red == (10 * (*i as i32 + 1)) * 255 / 100 && pos == Position::new(img.x, img.y) && sx.get_width() == img.w && sx.get_height() == img.h).map(|(i, _)| i as i64).unwrap_or(-1);
+            got.push(id);
+        }
+    }
+    got.sort_unstable();
+    let mut want: Vec<i64> = model(&case.images, k).into_iter().map(|i| i as i64).collect();
+    want.sort_unstable();
+    if got != want {
+        bad.push(("loader-images".into(), json!({"loaded": got, "model": want, "hold_ms": case.hold_ms, "order": case.order})));
+    }
+    bad
+}
+
 /// a poll normally takes microseconds; the limit only has to absorb scheduling delays of a loaded machine
 const POLL_LIMIT_S: u64 = 6;
 /// once a worker has seen this many blocked polls the verdict is settled: the remaining schedules (each of which would
@@ -597,6 +683,7 @@ static BLOCKED_POLLS: std::sync::atomic::AtomicU64 = std::sync::atomic::AtomicU6
 
 #[derive(Default)]
 pub struct C14 {
+    n_loader: u64,
     n_sched: u64,
     sched_index: Vec<(usize, usize, u64, u64)>, // (class, k, perm, polls)
 }
@@ -610,6 +697,34 @@ impl C14 {
             images: geometry(CLASSES[ci], k, &mut rng),
             order: permutation(perm, k),
             polls: (0..k).map(|j| polls >> j & 1 == 1).collect(),
+        }
+    }
+
+    fn loader_case(&self, ctx: &Ctx, idx: u64) -> LoaderCase {
+        const LOADER_CLASSES: [&str; 4] = ["disjoint", "newest-covers-all", "same-position-growing", "mixed"];
+        let mut r = idx;
+        let hold_ms = [0u64, 120][(r % 2) as usize];
+        r /= 2;
+        // (k, perm) over 1 + 2 + 6 combinations
+        let combo = r % 9;
+        r /= 9;
+        let (k, perm) = if combo < 1 { (1usize, 0u64) } else if combo < 3 { (2, combo - 1) } else { (3, combo - 3) };
+        let class = LOADER_CLASSES[(r % 4) as usize];
+        let mut rng = ctx.rng2(idx, "loader-geom");
+        LoaderCase { class: class.into(), images: geometry(class, k, &mut rng).into_iter().map(|mut i| { i.fails = false; i }).collect(), order: permutation(perm, k), hold_ms }
+    }
+
+    fn exec_loader(&mut self, ctx: &mut Ctx, case: &LoaderCase) {
+        let bad = run_loader(case);
+        ctx.count("loader_files_loaded", 1);
+        ctx.count("loader_images", case.images.len() as u64);
+        ctx.fp_str(&format!("loader|{}|{:?}|{}", case.class, case.order, case.hold_ms));
+        if ctx.want_sample() && case.images.len() == 3 && case.hold_ms > 0 {
+            ctx.sample(json!({"part": "loader", "class": case.class, "order": case.order, "hold_ms": case.hold_ms, "images": case.images.len()}));
+        }
+        for (key, mut detail) in bad {
+            detail["class"] = json!(case.class);
+            ctx.violation(&format!("loader|{key}"), detail, json!({"loader": serde_json::to_value(case).unwrap()}));
         }
     }
 
@@ -642,7 +757,7 @@ impl Prop for C14 {
         "C14"
     }
     fn rule(&self) -> &'static str {
-        "(payload) seeded sixel payloads over data characters, '!' repeats <= 500, '$', '-', '#' selects and RGB/HLS definitions, raster attributes smaller/equal/larger than the data, rows of unequal length: Sixel::parse_from must give picture_data.len()==width*height*4, and with a 4-parameter raster the declared height and (when no drawn pixel lies beyond it) width; with a 3-parameter raster the one declared extent must be honoured as height (the engine's reading) or as minimum width (the DEC manual's). (schedule) k<=4 real DCS sixel sequences are fed through the real ANSI parser; every decode thread blocks in the gate hook; for every completion order (k!) x every placement of update_sixel_threads polls (2^k) x 14 geometry classes the harness releases one decode at a time, waits for is_finished, optionally polls (on a helper thread; all decoders it could wait for are held by the harness, so not returning within 6 s but returning once the gates open = blocked; after 3 blocked polls a worker skips its remaining schedules), records (step, released, polled, result, queue length, images on screen in layer order) and an offline checker compares every record with the model 'fold arrivals in order over the longest finished prefix, newer image removes older ones it contains'. distinct_nontrivial = distinct (class, order, polls) schedules plus distinct (width,height,raster,newline) payload outcomes"
+        "(payload) seeded sixel payloads over data characters, '!' repeats <= 500, '$', '-', '#' selects and RGB/HLS definitions, raster attributes smaller/equal/larger than the data, rows of unequal length: Sixel::parse_from must give picture_data.len()==width*height*4, and with a 4-parameter raster the declared height and (when no drawn pixel lies beyond it) width; with a 3-parameter raster the one declared extent must be honoured as height (the engine's reading) or as minimum width (the DEC manual's). (schedule) k<=4 real DCS sixel sequences are fed through the real ANSI parser; every decode thread blocks in the gate hook; for every completion order (k!) x every placement of update_sixel_threads polls (2^k) x 14 geometry classes the harness releases one decode at a time, waits for is_finished, optionally polls (on a helper thread; all decoders it could wait for are held by the harness, so not returning within 6 s but returning once the gates open = blocked; after 3 blocked polls a worker skips its remaining schedules), records (step, released, polled, result, queue length, images on screen in layer order) and an offline checker compares every record with the model 'fold arrivals in order over the longest finished prefix, newer image removes older ones it contains'. (loader) .ans files with k<=3 sixel sequences are loaded with Buffer::from_bytes while a helper thread releases the held decodes 0 or 120 ms apart in every order: the loaded picture must hold exactly the images of the model and no decode may be left in the queue. distinct_nontrivial = distinct (class, order, polls) schedules plus distinct (width,height,raster,newline) payload outcomes"
     }
     fn meta(&self, ctx: &Ctx) -> Value {
         json!({"floor_evaluations": 2000, "floor_distinct": ctx.tier.pick(500u64, 3000u64), "watchdog_s": 120,
@@ -661,13 +776,18 @@ impl Prop for C14 {
             }
         }
         self.n_sched = self.sched_index.len() as u64;
-        self.n_sched + ctx.tier.pick(150_000, 2_000_000)
+        // loader class: 4 geometry classes x k = 1..=3 x all k! release orders x hold {0, 120 ms}
+        self.n_loader = 4 * (1 + 2 + 6) * 2;
+        self.n_sched + self.n_loader + ctx.tier.pick(150_000, 2_000_000)
     }
     fn run_case(&mut self, ctx: &mut Ctx, k: u64) {
         ctx.begin(k);
         if k < self.n_sched {
             let case = self.sched_case(ctx, k);
             self.exec_sched(ctx, &case);
+        } else if k < self.n_sched + self.n_loader {
+            let case = self.loader_case(ctx, k - self.n_sched);
+            self.exec_loader(ctx, &case);
         } else {
             let mut rng = ctx.rng(k);
             let case = PayloadCase { payload: gen_payload(&mut rng) };
@@ -676,7 +796,10 @@ impl Prop for C14 {
     }
     fn replay(&mut self, ctx: &mut Ctx, case: &Value) {
         ctx.begin(0);
-        if let Some(s) = case.get("schedule") {
+        if let Some(l) = case.get("loader") {
+            let c: LoaderCase = serde_json::from_value(l.clone()).expect("loader case");
+            self.exec_loader(ctx, &c);
+        } else if let Some(s) = case.get("schedule") {
             let c: SchedCase = serde_json::from_value(s.clone()).expect("schedule case");
             self.exec_sched(ctx, &c);
         } else if let Some(p) = case.get("payload") {
